@@ -756,4 +756,6 @@ def run(ctx):
     rules.append(rule_grp(ctx, group, std, scanner, exporter, fsec.raw, funcs, line_of))
     rules.append(rule_scan(funcs))
     rules.append(rule_val(ctx))
+    from ..rules import dims
+    rules.append(dims.rule_dims(ctx))
     return rules
